@@ -33,6 +33,39 @@ RULE = ("Enumeration: every generated valid base schema (Hypothesis: explang lan
 BANNERS = ("No errors in input", "Resolution successful", "Finished writing files", "Writing python module...Done", "writing schema file")
 NOATTR_CFG = {"min_attrs": 0, "max_attrs": 0, "p_derived": 0, "p_inverse": 0, "p_redecl": 0, "p_unique": 0, "p_where": 0, "max_ent": 7, "max_typ": 5}
 F9_SIG = "exp2python-crash-strdup"
+TIMEOUT = 300      # wall-clock guard per tool run: hitting it without using CPU_LIMIT seconds of CPU is "inconclusive", never a verdict
+CPU_LIMIT = 20     # CPU seconds (generated inputs take milliseconds); a hit is re-run three times before it counts
+
+
+def agg_rep_expr(text):
+    """shape of finding 'agg-rep-expr': an aggregate initialiser whose repetition count ([elem : count]) is not an integer literal"""
+    toks = M.tokenize(text)
+    for i, t in enumerate(toks):
+        if t.text != "[" or i == 0:
+            continue
+        prev = toks[i - 1]
+        if prev.kind == "id" or prev.text in ("]", ")") or (prev.kind == "kw" and prev.low in ("list", "set", "bag", "array", "self")):
+            continue        # type bounds or an index
+        depth, j = 0, i
+        while j < len(toks):
+            x = toks[j]
+            if x.text in ("[", "("):
+                depth += 1
+            elif x.text in ("]", ")"):
+                depth -= 1
+                if depth == 0:
+                    break
+            elif x.text == ":" and depth == 1:
+                k = j + 1
+                if not (k + 1 < len(toks) and toks[k].kind == "int" and toks[k + 1].text in (",", "]")):
+                    return True
+            j += 1
+    return False
+
+
+# shapes of open findings: a failing valid case whose text has the shape gets the specific signature; bases with the shape are
+# excluded by construction (except probes) while the finding is open
+SHAPES = {"valid-rejected:PE067": ("agg-rep-expr", agg_rep_expr)}
 
 
 def has_attribute(text):
@@ -58,12 +91,12 @@ def run_all(table, sc, text, tools, exppp_o, tag):
     for t in tools:
         d = sc.fresh("w")
         args = F.tool_args(t, p) if (t != "exppp" or exppp_o) else [p]
-        r = F.run_tool(build.tool("plain", t), args, cwd=d, timeout=120, light=True)
+        r = F.run_tool(build.tool("plain", t), args, cwd=d, timeout=TIMEOUT, cpu_limit=CPU_LIMIT, light=True)
         ds, oth = F.parse_stderr(table, r.err, p)
         ds2, _ = F.parse_stderr(table, r.out, p)
         errs = [x for x in ds + ds2 if x.tag == "ERROR"]
         both = r.out + "\n" + r.err
-        res[t] = {"status": r.status, "rc": r.rc, "sig": r.sig, "timeout": r.timeout, "errors": len(errs),
+        res[t] = {"status": r.status, "rc": r.rc, "sig": r.sig, "timeout": r.timeout, "cpu_exceeded": r.cpu_exceeded, "errors": len(errs),
                   "warnings": len([x for x in ds if x.tag == "WARNING"]),
                   "codes": sorted(set(x.num for x in errs)), "banners": [b for b in BANNERS if b in both], "files": len(os.listdir(d)),
                   "err": r.err[-600:], "out": r.out[-300:]}
@@ -81,13 +114,16 @@ def judge(case, res, table):
     for t, r in res.items():
         label = "%s: %s, %d ERROR diagnostics" % (t, r["status"], r["errors"])
         if r["timeout"]:
-            probs.append(("timeout:" + t, label, t))
+            if r["cpu_exceeded"]:
+                probs.append(("no-termination:" + t, "%s used more than %d s of CPU on a generated input without ending" % (t, CPU_LIMIT), t))
+            else:
+                probs.append(("inconclusive-wall-timeout", label, t))
             continue
         if case.kind in ("valid", "cocktail"):
             if r["sig"]:
                 probs.append(("valid-signal", "valid schema: %s; stderr: %s" % (label, r["err"][-300:]), t))
             elif r["rc"] != 0 or r["errors"]:
-                probs.append(("valid-rejected", "valid schema: %s; stderr: %s" % (label, r["err"][-400:]), t))
+                probs.append(("valid-rejected:" + ",".join("PE%03d" % c for c in r["codes"][:3]), "valid schema: %s; stderr: %s" % (label, r["err"][-400:]), t))
         elif case.kind == "listed":
             if r["sig"]:
                 probs.append(("fault-signal:%s" % case.cls, "%s fault: %s; stderr: %s" % (case.cls, label, r["err"][-300:]), t))
@@ -210,6 +246,8 @@ def work_base(arg):
             ev.case(common.chash(case.text), case.kind in ("listed", "unlisted"), classes=classes, sample=sample)
             ev.bump("tool-runs", len(res))
             for sig, det, tool in judge(case, res, table):
+                if sig in SHAPES and SHAPES[sig][1](case.text):
+                    sig = sig + ":" + SHAPES[sig][0]
                 if f9_present and sig == "valid-signal" and tool == "exp2python" and has_attribute(case.text):
                     sig = F9_SIG      # while F9 is in the tree every such crash is attributed to it (cannot be told apart cheaply)
                 fails.append({"sig": sig, "what": det, "text": case.text, "kind": case.kind, "cls": case.cls, "tool": tool, "exppp_o": exppp_o,
@@ -229,6 +267,8 @@ def recheck(f):
         res = run_all(table, sc, f["text"], tools, f.get("exppp_o", True), "confirm")
         out = []
         for sig, det, tool in judge(case, res, table):
+            if sig in SHAPES and SHAPES[sig][1](f["text"]):
+                sig = sig + ":" + SHAPES[sig][0]
             if f.get("f9_present") and sig == "valid-signal" and tool == "exp2python" and has_attribute(f["text"]):
                 sig = F9_SIG
             out.append((sig, det))
@@ -245,7 +285,11 @@ def main(tier, seed):
     f9_present = f9_probe()
     ev.extra["finding_F9_present_in_tree"] = f9_present
     n = 210 if tier == "quick" else 1500
-    srcs = M.sources(common.sub_seed(seed, PROP, "schemas"), n, {"expgen": {"max_ent": 8, "max_typ": 6}})
+    avoid = sorted(shape for base_sig, (shape, _p) in SHAPES.items() if findings.match(PROP, base_sig + ":" + shape))
+    srcs = M.sources(common.sub_seed(seed, PROP, "schemas"), n, {"expgen": {"max_ent": 8, "max_typ": 6}, "explang": {"avoid": set(avoid)}})
+    if avoid:
+        ev.exclude("construct of an open finding not generated (explang avoid=%s); probes without the restriction: 8" % avoid)
+        srcs += M.sources(common.sub_seed(seed, PROP, "probes"), 8, {}, profile="explang" if M.have_explang() else "expgen")
     srcs += M.sources(common.sub_seed(seed, PROP, "noattr"), n // 3, {"expgen": NOATTR_CFG}, profile="expgen")
     for s in srcs[-(n // 3):]:
         s["origin"] = "expgen-noattr"
@@ -256,6 +300,17 @@ def main(tier, seed):
         except OSError:
             pass
     ev.extra["schema_source"] = sorted(set(s["origin"] for s in srcs))
+    for base_sig, (shape, pred) in SHAPES.items():
+        if findings.match(PROP, base_sig + ":" + shape):
+            keep, probes = [], 0
+            for s_ in srcs:
+                if s_["origin"] != "unitary" and pred(s_["text"]):
+                    probes += 1
+                    if probes > 4:
+                        ev.exclude("base schema with the shape of open finding '%s' (kept as probes: 4)" % shape)
+                        continue
+                keep.append(s_)
+            srcs = keep
     results = common.pmap(common.guarded(work_base), [(i, s, tier, seed, f9_known, f9_present) for i, s in enumerate(srcs)])
     rc = 0
     fails = []
@@ -268,6 +323,9 @@ def main(tier, seed):
         fails += res["fails"]
 
     # root-cause buckets: crashes by innermost repository frame (one gdb run per pre-bucket), the rest by their signature
+    for f in [f for f in fails if f["sig"] == "inconclusive-wall-timeout"]:
+        ev.inconclusive.append("wall-clock guard hit without exceeding the CPU limit (machine load): " + f["what"][:150])
+    fails = [f for f in fails if f["sig"] != "inconclusive-wall-timeout"]
     pre = {}
     for f in fails:
         pre.setdefault((f["sig"], f["tool"] if f["crash"] else ""), []).append(f)
@@ -291,7 +349,12 @@ def main(tier, seed):
         f = fs[0]
         want = f.get("presig", f["sig"])
 
-        def still(t, f=f, want=want):
+        budget = [30 if want.startswith("no-termination") else 400]
+
+        def still(t, f=f, want=want, budget=budget):
+            budget[0] -= 1
+            if budget[0] < 0:
+                return False
             g = dict(f)
             g["text"] = t
             return any(s == want for s, _d in recheck(g))
@@ -299,7 +362,7 @@ def main(tier, seed):
             try:
                 f = dict(f)
                 if f["kind"] in ("valid", "cocktail"):
-                    f["text"] = F.minimise_decls(f["text"], still)
+                    f["text"] = F.minimise_decls(f["text"], still, max_rounds=2, lines=not want.startswith("no-termination"))
             except Exception as e:
                 ev.inconclusive.append("minimisation failed: %s" % e)
         if not all(any(s == want for s, _d in recheck(f)) for _ in range(3)):
